@@ -20,8 +20,8 @@ fn run(cfg: &str, n: usize, par: bool, multi: bool, rt: &tokio::runtime::Runtime
             out.push(Failure {
                 clause: "replay/c0203#all_answers".into(),
                 case: vec!["c0203".into(), cfg.into(), n.to_string(), (par as u8).to_string(), (multi as u8).to_string()],
-                input: format!("[{cfg}] publish {n} labels twice ({} insertion, {} runtime), then lookup / key_history (Complete, MostRecent(1), MostRecent(5)) of every label", if par { "parallel" } else { "sequential" }, if multi { "4-worker" } else { "single-threaded" }),
-                expected: "every answer verifies against the epoch hash returned with it and yields the latest value / all versions newest first; an unpublished label gets an error".into(),
+                input: format!("[{cfg}] publish {n} labels twice, a third time with the even ones unchanged and a fourth time with all unchanged ({} insertion, {} runtime), then lookup / batch_lookup / key_history (Complete, MostRecent(1), MostRecent(5)) of every label", if par { "parallel" } else { "sequential" }, if multi { "4-worker" } else { "single-threaded" }),
+                expected: "every answer verifies against the epoch hash returned with it and yields the latest value, the version = number of DISTINCT successive values and the epoch of that update / all versions newest first; a publish of unchanged values creates no epoch; an unpublished label gets an error".into(),
                 observed: format!("{b} ({} problems)", bad.len()),
                 finding_id: None,
             });
@@ -37,7 +37,7 @@ pub fn search(_seed: u64, full: bool, rt: &tokio::runtime::Runtime) -> SearchRes
         run(cfg, 8, false, false, rt, &mut out); n += 1;
         run(cfg, size, true, true, rt, &mut out); n += 1;
     }
-    SearchResult { evaluations: n, failures: out, summary: format!("BOUNDED: 8 labels (sequential, single-threaded) and {size} labels (parallel insertion and VRF labelling on a 4-worker runtime), two versions each, every lookup / history answer, both configurations") }
+    SearchResult { evaluations: n, failures: out, summary: format!("BOUNDED: 8 labels (sequential, single-threaded) and {size} labels (parallel insertion and VRF labelling on a 4-worker runtime), two or three versions each (unchanged re-submits included), every lookup / batch lookup / history answer, both configurations") }
 }
 
 pub fn replay(case: &[&str], rt: &tokio::runtime::Runtime) -> (bool, String) {
